@@ -44,7 +44,7 @@ Print Assumptions C01_values_in_range.
    the two packet/record loops (fuelled in the model), two divisions by the constant 4, no
    unwrap/expect/panic!/indexing/unchecked arithmetic, no recursion, no statics *)
 Theorem C01_inventory :
-  panic_sites = [ ("src/lib.rs", "parse_bytes", "loop", "while");
+  panic_sites = [ ("src/lib.rs", "parse_bytes", "loop", "loop");
                   ("src/variable_versions/v9.rs", "<item>", "div", "h / 4");
                   ("src/variable_versions/v9.rs", "<item>", "div", "h / 4");
                   ("src/variable_versions/ipfix.rs", "parse", "loop", "loop") ]
